@@ -124,6 +124,11 @@ def step (s : St) (toks : List String) : St × String :=
     match nsubs.toNat?, rounds.toNat? with
     | some a, some b => if a = 0 || a > 1024 || b = 0 || b > 100000 then (s, "bad-op") else (s, "ok")
     | _, _ => (s, "bad-op")
+  | ["prioburst", rounds] =>
+    -- the real priority-sidecar listener publishing into a hub on a multi-thread runtime: monitor only
+    match rounds.toNat? with
+    | some r => if r = 0 || r > 10000 then (s, "bad-op") else (s, "ok")
+    | none => (s, "bad-op")
   | ["recv", c] =>
     match c.toNat? with
     | some c => if c < s.conns then run s (.recv c) else (s, "bad-op")
